@@ -38,9 +38,29 @@ pub enum Dev {
     ApprovedCaseOrSpaceVariant(u8),
 }
 
+/// (chain, id, src) with one field put in upper case / given a space
+fn case_space_variant(chain: &str, id: &str, src: &str, k: u8) -> (String, String, String) {
+    let f = |x: &str| -> String {
+        if k / 3 % 2 == 0 {
+            if x.is_empty() || x.to_uppercase() == x {
+                format!("{}X", x).to_lowercase() + "Y"
+            } else {
+                x.to_uppercase()
+            }
+        } else {
+            format!("{} ", x)
+        }
+    };
+    match k % 3 {
+        0 => (f(chain), id.to_string(), src.to_string()),
+        1 => (chain.to_string(), f(id), src.to_string()),
+        _ => (chain.to_string(), id.to_string(), f(src)),
+    }
+}
+
 const SEPS: [&str; 8] = ["", "_", ":", "-", "/", "|", ".", " "];
 
-const DEVS: [Dev; 25] = [
+const DEVS: [Dev; 31] = [
     Dev::None,
     Dev::NeverApproved,
     Dev::ApprovedForOtherApp,
@@ -66,6 +86,12 @@ const DEVS: [Dev; 25] = [
     Dev::ApprovedCaseOrSpaceVariant(3),
     Dev::ApprovedCaseOrSpaceVariant(4),
     Dev::ApprovedCaseOrSpaceVariant(5),
+    Dev::ApprovedCaseOrSpaceVariant(6),
+    Dev::ApprovedCaseOrSpaceVariant(7),
+    Dev::ApprovedCaseOrSpaceVariant(8),
+    Dev::ApprovedCaseOrSpaceVariant(9),
+    Dev::ApprovedCaseOrSpaceVariant(10),
+    Dev::ApprovedCaseOrSpaceVariant(11),
 ];
 
 #[derive(Clone, Debug, Serialize, Deserialize)]
@@ -85,10 +111,10 @@ impl Property for C16 {
         "C16"
     }
     fn rule(&self) -> &'static str {
-        "proptest single cases: app (the shipped example / a minimal harness app that calls the interface's validate_message helper and aborts on error) x delivery (chain, id, source address from small pools incl. empty strings; payload 0..600 bytes) x at most one deviation (never approved; approved for another app / payload / source address / id / chain; delivered twice; additionally approved for the other app; approval re-submitted, or the id re-approved with other content, after delivery; approved under another split of the same characters between chain and id, for 8 separators; approved in another letter case or with surrounding whitespace). All 2x25 app x deviation combinations are also enumerated as fixed cases. Oracle: the app's effect (its executed event / counter) and the gateway's transition to executed happen iff the gateway held a matching unexecuted approval naming this app; otherwise the delivery fails, nothing is emitted and the ledger snapshot is identical. non-trivial = a deviation is present; distinct by Debug hash"
+        "proptest single cases: app (the shipped example / a minimal harness app that calls the interface's validate_message helper and aborts on error) x delivery (chain, id, source address from small pools incl. empty strings; payload 0..600 bytes) x at most one deviation (never approved; approved for another app / payload / source address / id / chain; delivered twice; additionally approved for the other app; approval re-submitted, or the id re-approved with other content, after delivery; approved under another split of the same characters between chain and id, for 8 separators; approval and delivery differing only in letter case or a trailing space of chain / id / source address, in either direction). All 2x31 app x deviation combinations are also enumerated as fixed cases. Oracle: the app's effect (its executed event / counter) and the gateway's transition to executed happen iff the gateway held a matching unexecuted approval naming this app; otherwise the delivery fails, nothing is emitted and the ledger snapshot is identical. non-trivial = a deviation is present; distinct by Debug hash"
     }
     fn fixed_is_exhaustive(&self) -> Option<&'static str> {
-        Some("app x deviation matrix (2 x 25) enumerated completely with one fixed delivery; deliveries sampled")
+        Some("app x deviation matrix (2 x 31) enumerated completely with one fixed delivery; deliveries sampled")
     }
     fn cases(&self, tier: Tier) -> u64 {
         tier.pick(20000, 200000)
@@ -148,14 +174,13 @@ impl Property for C16 {
                 vec![mk(&app, &format!("{}{}p", chain, sep), id, src, &payload)]
             }
             Dev::ApprovedCaseOrSpaceVariant(k) => {
-                let up = |x: &str| if x.is_empty() { "X".to_string() } else { x.to_uppercase() };
-                match k % 6 {
-                    0 => vec![mk(&app, &up(chain), id, src, &payload)],
-                    1 => vec![mk(&app, chain, &up(id), src, &payload)],
-                    2 => vec![mk(&app, chain, id, &up(src), &payload)],
-                    3 => vec![mk(&app, &format!("{} ", chain), id, src, &payload)],
-                    4 => vec![mk(&app, chain, &format!(" {}", id), src, &payload)],
-                    _ => vec![mk(&app, chain, id, &format!("{} ", src), &payload)],
+                // k % 3: which field; (k / 3) % 2: letter case or surrounding space; k / 6: the variant is in the
+                // approval (delivery plain) or in the delivery (approval plain, see below)
+                if k / 6 % 2 == 1 {
+                    vec![mk(&app, chain, id, src, &payload)]
+                } else {
+                    let (c2, i2, s2) = case_space_variant(chain, id, src, k);
+                    vec![mk(&app, &c2, &i2, &s2, &payload)]
                 }
             }
             Dev::AlsoApprovedForOtherApp => vec![mk(&app, chain, id, src, &payload), mk(&other_app, chain, &format!("{}y", id), src, &payload)],
@@ -175,6 +200,15 @@ impl Property for C16 {
             _ => id.to_string(),
         };
         let id: &str = &shifted_id;
+        // the delivery (not the approval) carries the case / space variant
+        let delivered_variant = match case.dev {
+            Dev::ApprovedCaseOrSpaceVariant(k) if k / 6 % 2 == 1 => Some(case_space_variant(chain, id, src, k)),
+            _ => None,
+        };
+        let (chain, id, src): (&str, &str, &str) = match &delivered_variant {
+            Some((c, i, s)) => (c, i, s),
+            None => (chain, id, src),
+        };
         let client = AxelarExecutableClient::new(&env, &app);
         env.set_auths(&[]);
         let deliver = || {
